@@ -60,25 +60,81 @@ Definition line_span (s : str) (line : Z) : option (Z * Z) :=
 Definition read_line (s : str) (line : Z) : option str :=
   match line_span s line with Some (a, b) => Some (substr s a b) | None => None end.
 
-(* partition_point(|&start| start < index) on the (sorted) newline index *)
+(* ---- the same two functions with their panic sites explicit (outer None = panic) ----
+   `&self.src[a..b]` panics unless a <= b <= len and both are code-point boundaries;
+   `end -= ..`, `line.len() - trimmed.len()` are usize subtractions (overflow checks on).
+   SourceInfoProofs.line_span_res_ok / read_line_res_ok: they never panic and equal the above. *)
+Fixpoint is_boundary_from (s : str) (off a : Z) : bool :=
+  (a =? off) || match s with [] => false | c :: r => is_boundary_from r (off + utf8_len c) a end.
+Definition is_boundary (s : str) (a : Z) : bool := is_boundary_from s 0 a.
+Definition slice (s : str) (a b : Z) : option str :=
+  if (a <=? b) && is_boundary s a && is_boundary s b then Some (substr s a b) else None.
+Definition usub (a b : Z) : option Z := if a <? b then None else Some (a - b).
+
+Definition line_span_res (s : str) (line : Z) : option (option (Z * Z)) :=
+  match raw_line_span s line with
+  | None => Some None
+  | Some (st, e) =>
+      match slice s st e with
+      | None => None
+      | Some l =>
+          let et := trim_end l in
+          match usub (byte_len l) (byte_len et) with
+          | None => None
+          | Some d1 =>
+              match usub e d1, usub (byte_len et) (byte_len (trim_start et)) with
+              | Some e', Some d2 => Some (Some (st + d2, e'))
+              | _, _ => None
+              end
+          end
+      end
+  end.
+Definition read_line_res (s : str) (line : Z) : option (option str) :=
+  match line_span_res s line with
+  | None => None
+  | Some None => Some None
+  | Some (Some (a, b)) => match slice s a b with Some t => Some (Some t) | None => None end
+  end.
+
+(* partition_point(|&start| start < index) on the (sorted) newline index, clamped to the last
+   line: `.min(self.count_lines().saturating_sub(1))` *)
 Fixpoint count_lt (l : list Z) (x : Z) : Z :=
   match l with [] => 0 | a :: r => if a <? x then 1 + count_lt r x else 0 end.
-Definition get_line (s : str) (index : Z) : Z := count_lt (nl_indices s) index.
+Definition get_line (s : str) (index : Z) : Z :=
+  Z.min (count_lt (nl_indices s) index) (Z.max 0 (count_lines s - 1)).
 
-(* LAST_LINE_FALLBACK: line used when the index lies past the end of the text.
-   (count_lines - 1 = the last line.) *)
-Definition get_pos_pair (s : str) (index : Z) : Z * Z :=
+(* get_pos_pair.  `index - lstart` is a usize subtraction: None = the panic it would raise under
+   overflow checks if lstart > index (SourceInfoProofs.get_pos_pair_res_some: it never does).
+
+   Before the repair (get_line not clamped, fallback `raw_line_span(nl_indices.len())`, which is
+   always None) an index past the end gave line = count_lines, column = index:
+     get_pos_pair "a\nb" 4 = (2, 4)   instead of (1, 2);   get_pos_pair "" 1 = (1, 1) instead of (0, 1).
+   The unrepaired function is kept in proofs/SourceInfoProofs.v (get_pos_pair_unrepaired). *)
+Definition get_pos_pair_res (s : str) (index : Z) : option (Z * Z) :=
   let lno := get_line s index in
-  let lstart := match raw_line_span s lno with
-                | Some (a, _) => a
-                | None => match raw_line_span s (count_lines s) with Some (a, _) => a | None => 0 end
-                end in
-  (lno, index - lstart).
+  let lstart := match raw_line_span s lno with Some (a, _) => a | None => 0 end in
+  if index <? lstart then None else Some (lno, index - lstart).
+Definition get_pos_pair (s : str) (index : Z) : Z * Z :=
+  match get_pos_pair_res s index with Some p => p | None => (0, 0) end.
 
 (* ---------- wire ---------- *)
 Definition t_span (o : option (Z * Z)) : tree := t_opt (fun p => L [I (fst p); I (snd p)]) o.
+Definition t_pos (o : option (Z * Z)) : tree :=
+  match o with Some p => L [I (fst p); I (snd p)] | None => t_panic end.
+(* 0, 1, ..., n-1 *)
+Definition t_res {A} (f : A -> tree) (o : option A) : tree :=
+  match o with Some a => f a | None => t_panic end.
+Fixpoint upto (n : nat) (from : Z) : list Z :=
+  match n with O => [] | S k => from :: upto k (from + 1) end.
+(* one case per string: count_lines, line_span and read_line of lines 0..nl-1, get_pos_pair of 0..ni-1 *)
+Definition scan (s : str) (nl ni : Z) : tree :=
+  L [ I (count_lines s);
+      L (map (fun l => t_res t_span (line_span_res s l)) (upto (Z.to_nat nl) 0));
+      L (map (fun l => t_res (t_opt t_zs) (read_line_res s l)) (upto (Z.to_nat nl) 0));
+      L (map (fun x => t_pos (get_pos_pair_res s x)) (upto (Z.to_nat ni) 0)) ].
 Definition ops : op_table :=
   [ ("srcinfo.count_lines"%string, fun t => match as_zs t with Some s => I (count_lines s) | None => t_bad end);
-    ("srcinfo.line_span"%string, fun t => match t with L [s; I l] => match as_zs s with Some s => t_span (line_span s l) | None => t_bad end | _ => t_bad end);
-    ("srcinfo.read_line"%string, fun t => match t with L [s; I l] => match as_zs s with Some s => t_opt t_zs (read_line s l) | None => t_bad end | _ => t_bad end);
-    ("srcinfo.get_pos_pair"%string, fun t => match t with L [s; I x] => match as_zs s with Some s => let p := get_pos_pair s x in L [I (fst p); I (snd p)] | None => t_bad end | _ => t_bad end) ].
+    ("srcinfo.line_span"%string, fun t => match t with L [s; I l] => match as_zs s with Some s => t_res t_span (line_span_res s l) | None => t_bad end | _ => t_bad end);
+    ("srcinfo.read_line"%string, fun t => match t with L [s; I l] => match as_zs s with Some s => t_res (t_opt t_zs) (read_line_res s l) | None => t_bad end | _ => t_bad end);
+    ("srcinfo.get_pos_pair"%string, fun t => match t with L [s; I x] => match as_zs s with Some s => t_pos (get_pos_pair_res s x) | None => t_bad end | _ => t_bad end);
+    ("srcinfo.scan"%string, fun t => match t with L [s; I nl; I ni] => match as_zs s with Some s => scan s nl ni | None => t_bad end | _ => t_bad end) ].
